@@ -150,7 +150,23 @@ func (self *Interpreter) forStatement(node ast.AnalyzedForStatement) *value.Inte
 		return i
 	}
 
-	iterator := (*iterVal).IntoIter()
+	// Iterate over a snapshot of the iterable with an iterator position of its own: the body may modify
+	// the list, and a loop over the same value may be active (or may have been left by `break`) elsewhere.
+	var iterable value.Value
+	switch iter := (*iterVal).(type) {
+	case value.ValueList:
+		snapshot := make([]*value.Value, len(*iter.Values))
+		copy(snapshot, *iter.Values)
+		iterable = *value.NewValueList(snapshot)
+	case value.ValueRange:
+		iterable = *value.NewValueRange(*iter.Start, *iter.End, iter.EndIsInclusive)
+	case value.ValueString:
+		iterable = *value.NewValueString(iter.Inner)
+	default:
+		iterable = *iterVal
+	}
+
+	iterator := iterable.IntoIter()
 
 	// add a new scope for the loop
 	self.pushScope()
